@@ -23,7 +23,8 @@ RULE = (
     "T over leap / non-leap years and year ends, both timestamps written in independently chosen UTC offsets, disposals "
     "spanning lots on either side of the threshold, income rows; countries us, es (365), jp, ie (never), generic with "
     "LONG_TERM_CAPITAL_GAINS in {0,1,30,180,365,366,730}. Non-trivial = a run whose fractions include a lot within one day "
-    "of the threshold; distinct = hash of (history, country, period)"
+    "of the threshold; distinct = hash of (history, country, period). "
+    "The repository's own example inputs (input/*.ods read independently of RP2's parser, every method and the config's schedule, -n) are part of the workload"
 )
 ASSUMPTIONS = ["whole days elapsed are computed on instants (UTC), whatever the written time zones", "income fractions are always short-term"]
 SETTINGS: Dict[str, Dict[str, Any]] = {
